@@ -76,6 +76,12 @@ S1 = T("slice", const(1), tm.NONE, tm.NONE)
 
 def _zip_chain(ret: T):
     """ids if ret = [(i, j) for i, j in zip(ids, ids[1:])]"""
+    # list(zip(ids, ids[1:])) is the same list of pairs
+    if is_call_to(ret, "builtins.list") and len(ret.args[1]) == 1 and \
+            is_call_to(ret.args[1][0], "builtins.zip") and \
+            len(ret.args[1][0].args[1]) == 2 and not ret.args[1][0].args[2]:
+        a, b = ret.args[1][0].args[1]
+        return a if b is tm.sub(a, S1) else None
     pe = per_element(ret)
     if pe is None:
         return None
